@@ -14,6 +14,25 @@ KAFKA_CLIENT = ("confluent-kafka-go / librdkafka replaced by a scripted client b
 JSON_CODEC = "encoding/json round trip of recovery snapshots / wire messages (modelled as identity, exercised by the harness)"
 
 PROPS = {
+    "C20": dict(
+        components=[("params", 5000, 200000)],
+        trusted=["confluent ConfigMap.SetKey ({topic}. sub-map rule) modelled in classify/applyParam", "strconv.Atoi/ParseBool re-implemented in the "
+                 "model and compared with Go on boundary strings in every run", "strconv.ParseFloat / FormatFloat are parameters of the model "
+                 "(round-trip hypothesis); the harness supplies Go's ParseFloat of each configured string"],
+        assumptions=["parameter keys/values drawn from an alphabet without the harness separators (space, tab, '=', ',')",
+                     "NaN bounds/defaults are outside the quantifier (compared model-vs-code only)"],
+        not_yet_proved=["atoi (itoa n) = some n for every int64 n (proved by kernel evaluation on 12 boundary values only: atoi_itoa_samples; "
+                        "the general statement is covered by the correspondence stream 'atoi'/'int')"],
+    ),
+    "C08": dict(
+        components=[("tracker", 2000, 100000)],
+        trusted=[JSON_CODEC, "FBContext.SendMessage replaced by a recording context"],
+        assumptions=["ranges well-formed (from <= to) and message keys parsable, as every caller in firebolt produces them; "
+                     "ill-formed ranges and unparsable keys are compared model-vs-code only",
+                     "theorems sender_is_last / snapshot_replication are stated for histories of local operations "
+                     "(add/update/complete/cancel/get); histories that interleave received snapshots are covered by the "
+                     "correspondence check and the Spec oracle only"],
+    ),
     "C06": dict(
         components=[("offsets", 3000, 300000)],
         trusted=[KAFKA_CLIENT, "Go int64 arithmetic modelled by wrap64 on Int"],
